@@ -10,7 +10,7 @@ Gen/UmlBlobSrc.v (fail closed, from the AST):
   literals_<function>    every string literal of ClassOperation.__init__, ClassAttribute.__init__, Class.ParseStereotypesAbstractAndDocs,
                          Class.ParseAttributes, Class.ParseOperations, Package.ParseClassesInPackage, Inheritance.Parse,
                          Association.ParseAssociation, GetNestedTypeNamesFromNestedTypeIDS, vppfs.Get_ValuesFromOutside,
-                         vppfs.ParseBLOB_Recursive, LanguageCPP.GetTypeAndNameFromMultiplicityAndModifier,
+                         vppfs.ParseBLOB_Recursive, vppfs.SplitOutsideQuotes, LanguageCPP.GetTypeAndNameFromMultiplicityAndModifier,
                          LanguageCPP.GetDefaultFormatFromMultiplicityAndModifier, Class.GetContainerMultiplicityType -- in source order;
                          Proofs/UmlBlobPins.v pins them to the literals Model/UmlBlob.v was written against
 Gen/UmlBlobShipped.v:
@@ -183,21 +183,12 @@ class Reader:
             val = m2.group(0)
             self.p = m2.end()
             self.expect(b";")
-            if not re.search(rb"[{};=]", val):
-                return [("field", ws, key, val)]
-            # free text with braces / separators (an HTML documentation): raw pieces and inert braced pieces
-            text = ws + key + b"=" + val + b";"
-            out = []
-            for piece in re.split(rb"(\{[^{}]*\})", text):
-                if piece.startswith(b"{"):
-                    if b"=" in piece:
-                        raise Refuse("blob: braced free text containing '='")
-                    out.append(("inert", piece[1:-1]))
-                elif piece:
-                    if b"{" in piece or b"}" in piece:
-                        raise Refuse("blob: unbalanced braces in free text")
-                    out.append(("raw", piece))
-            return out
+            inner = val[1:-1]
+            if re.fullmatch(rb"[\x20-\x7e]*", inner) and not re.search(rb"[=<>;\\\"()',{}]", inner) and inner == inner.strip():
+                return [("field", ws, key, val)]          # a plain text value
+            # free text with braces / separators (an HTML documentation): ONE piece; the reader (quote aware since the repair of
+            # K-C19-6) takes everything between the quotes as text
+            return [("raw", ws + key + b"=" + val + b";")]
         e = self.d.index(b";", self.p)
         val = self.d[self.p:e]
         if re.search(rb'[{}<>("]', val):
@@ -339,6 +330,119 @@ def shipped():
     return "\n".join(out) + "\n"
 
 
+# ---------------------------------------------------------------- the shipped class diagrams as SEMANTIC diagrams (Model/UmlSem.v)
+
+TAGS = {"vis": "TVis", "ret": "TRet", "typemod": "TTypeMod", "abstract": "TAbstract", "query": "TQuery", "scope": "TScope", "doc": "TDoc",
+        "child": "TChild", "type": "TType", "typestring": "TTypeString", "dir": "TDir", "default": "TDefault", "mult": "TMult", "init": "TInit",
+        "setter": "TSetter", "getter": "TGetter", "readonly": "TReadOnly", "stereo": "TStereo", "from": "TFrom", "to": "TTo", "agg": "TAgg"}
+
+
+def sem_coq(S):
+    """Coq term of an sdiagram value (the nested lists harness/umlblob.Semantic builds; the decoder twin is ocaml/cmds_zzumlsem.ml)"""
+    L = coq_lit
+
+    def o(v):
+        if len(v) > 1:
+            raise Refuse("option with %d members" % len(v))
+        return "(Some %s)" % L(v[0]) if v else "None"
+
+    def b(v):
+        if v not in (b"0", b"1"):
+            raise Refuse("boolean %r" % v)
+        return "true" if v == b"1" else "false"
+
+    def strs(v):
+        return coq_list([L(x) for x in v])
+
+    def lay(v):
+        out = []
+        for sl in v:
+            if sl[0] == b"N" and len(sl) == 3:
+                out.append("SNoise %s %s" % (L(sl[1]), L(sl[2])))
+            elif sl[0] == b"T" and len(sl) == 2 and sl[1].decode() in TAGS:
+                out.append("STag %s" % TAGS[sl[1].decode()])
+            else:
+                raise Refuse("slot %r" % (sl,))
+        return coq_list(out)
+
+    def param(v):
+        i, n, basic, ty, d, md, df, mu, la = v
+        dirn = {b"in": "(Some true)", b"out": "(Some false)"}.get(d, "None")
+        return ("{| sp_id := %s; sp_name := %s; sp_basic := %s; sp_type := %s; sp_dir := %s; sp_mod := %s; sp_default := %s; sp_mult := %s; sp_layout := %s |}"
+                % (L(i), L(n), o(basic), strs(ty), dirn, L(md), L(df), L(mu), lay(la)))
+
+    def op(v):
+        i, n, vis, ret, rm, ab, qu, st, doc, ps, la = v
+        return ("{| so_id := %s; so_name := %s; so_vis := %s; so_ret := %s; so_retmod := %s; so_abstract := %s; so_query := %s; so_static := %s; so_doc := %s;\n"
+                "         so_params := %s; so_layout := %s |}" % (L(i), L(n), o(vis), strs(ret), L(rm), b(ab), b(qu), b(st), L(doc), coq_list([param(x) for x in ps]), lay(la)))
+
+    def attr(v):
+        i, n, vis, ty, md, mu, doc, ini, se, ge, st, co, la = v
+        return ("{| sa_id := %s; sa_name := %s; sa_vis := %s; sa_type := %s; sa_mod := %s; sa_mult := %s; sa_doc := %s; sa_init := %s; sa_setter := %s; sa_getter := %s;\n"
+                "         sa_static := %s; sa_const := %s; sa_layout := %s |}" % (L(i), L(n), o(vis), strs(ty), L(md), L(mu), L(doc), L(ini), b(se), b(ge), b(st), b(co), lay(la)))
+
+    def member(v):
+        if v[0] == b"op":
+            return "MOp %s" % op(v[1])
+        if v[0] == b"attr":
+            return "MAttr %s" % attr(v[1])
+        if v[0] == b"lit":
+            return "MLit %s %s %s" % (L(v[1]), L(v[2]), lay(v[3]))
+        raise Refuse("member %r" % v[0])
+
+    def end(v):
+        i, n, cl, mu, agg, vis, ge, se, co, la = v
+        return ("{| se_id := %s; se_name := %s; se_class := %s; se_mult := %s; se_agg := %s; se_vis := %s; se_getter := %s; se_setter := %s; se_const := %s; se_layout := %s |}"
+                % (L(i), o(n), strs(cl), L(mu), o(agg), o(vis), b(ge), b(se), b(co), lay(la)))
+
+    def elem(v):
+        k = v[0]
+        if k == b"class":
+            i, n, par, st, ab, doc, ms, la = v[1]
+            return ("EClass {| sc_id := %s; sc_name := %s; sc_parent := %s; sc_stereos := %s; sc_abstract := %s; sc_doc := %s;\n      sc_members := [\n        %s];\n      sc_layout := %s |}"
+                    % (L(i), L(n), o(par), strs(st), b(ab), L(doc), ";\n        ".join(member(m) for m in ms), lay(la)))
+        if k == b"package":
+            i, n, par, paths, la = v[1]
+            return "EPackage {| sk_id := %s; sk_name := %s; sk_parent := %s; sk_paths := %s; sk_layout := %s |}" % (L(i), L(n), o(par), coq_list([strs(x) for x in paths]), lay(la))
+        if k == b"inh":
+            i, par, real, fr, t, la = v[1]
+            return "EInh {| si_id := %s; si_parent := %s; si_real := %s; si_from := %s; si_to := %s; si_layout := %s |}" % (L(i), o(par), b(real), strs(fr), strs(t), lay(la))
+        if k == b"assoc":
+            i, n, par, doc, fr, t, la = v[1]
+            return ("EAssoc {| sx_id := %s; sx_name := %s; sx_parent := %s; sx_doc := %s;\n      sx_from := %s;\n      sx_to := %s;\n      sx_layout := %s |}"
+                    % (L(i), o(n), o(par), L(doc), end(fr), end(t), lay(la)))
+        if k == b"other":
+            _k, i, n, ty, par, la = v
+            return "EOther %s %s %s %s %s" % (L(i), o(n), L(ty), o(par), lay(la))
+        raise Refuse("element %r" % k)
+
+    i, n, shapes, refs = S
+    return ("{| sd_id := %s; sd_name := %s;\n  sd_shapes := [\n    %s];\n  sd_refd := [\n    %s] |}" % (
+        L(i), L(n), ";\n    ".join("(%s, %s)" % (L(sid), elem(e)) for sid, e in shapes),
+        ";\n    ".join("{| sr_id := %s; sr_name := %s; sr_type := %s; sr_parent := %s; sr_noise := %s |}" % (L(a), L(b_), L(c), o(d), lay(e_)) for a, b_, c, d, e_ in refs)))
+
+
+def semantic_shipped():
+    """both shipped class diagrams, as the adaptor reads them from kojen/test/blob.xml, re-expressed as semantic diagrams (every class,
+    operation, parameter, attribute, literal, package, realisation / generalisation and association with the names, types, values,
+    visibilities and flags read; ids invented except those of the classes; layouts and noise drawn from a fixed seed)"""
+    import random
+    from harness import umlsynth as us, umlblob as ub
+    out = ["From KV Require Import Lib.Str Model.Vpp Model.UmlWriter Model.UmlSem.\n"]
+    names = []
+    for label in us.DIAGRAMS:
+        us._CACHE.pop(label, None) if hasattr(us, "_CACHE") else None
+        cd = us.load(label)
+        try:
+            S, _name = ub.semantic_value(random.Random(0), cd)
+        except ub.Unencodable as e:
+            raise Refuse("shipped diagram %s has no semantic form: %s" % (label, e))
+        out.append("Definition sem_%s : sdiagram :=\n%s.\n" % (label, sem_coq(S)))
+        names.append("sem_" + label)
+    out.append("Definition shipped_sem : list sdiagram := %s." % coq_list(names))
+    return "\n".join(out) + "\n"
+
+
 def run():
     tree = parse(SRC)
     fs = parse(SRC_FS)
@@ -358,13 +462,14 @@ def run():
            ("parse_operations", find_def(tree, "ParseOperations", "Class")), ("package", find_def(tree, "ParseClassesInPackage", "Package")),
            ("inheritance", find_def(tree, "Parse", "Inheritance")), ("association", find_def(tree, "ParseAssociation", "Association")),
            ("nested_type_names", find_def(tree, "GetNestedTypeNamesFromNestedTypeIDS")), ("values_from_outside", find_def(fs, "Get_ValuesFromOutside")),
-           ("parse_blob", find_def(fs, "ParseBLOB_Recursive")), ("container_type", find_def(tree, "GetContainerMultiplicityType", "Class")),
+           ("parse_blob", find_def(fs, "ParseBLOB_Recursive")), ("split_outside_quotes", find_def(fs, "SplitOutsideQuotes")), ("container_type", find_def(tree, "GetContainerMultiplicityType", "Class")),
            ("type_and_name", find_def(cpp, "GetTypeAndNameFromMultiplicityAndModifier", "LanguageCPP")),
            ("default_format", find_def(cpp, "GetDefaultFormatFromMultiplicityAndModifier", "LanguageCPP")),
            ("loadandtest", find_def(tree, "LoadAndTest", "ClassDiagram"))]
     for name, fn in fns:
         out.append("Definition literals_%s : list string := %s." % (name, coq_str_list(literals(fn))))
     write_gen("UmlBlobSrc.v", "\n".join(out) + "\n", [SRC, SRC_FS, SRC_CPP])
+    write_gen("UmlSemShipped.v", semantic_shipped(), [BLOB, SRC, SRC_FS])
     return write_gen("UmlBlobShipped.v", shipped(), [BLOB, SRC])
 
 
